@@ -267,10 +267,6 @@ ERRS = {'TypeError': '(OtherError TypeError)', 'ValueError': '(OtherError ValueE
         'AssertionError': '(OtherError AssertionError)', 'DecodingError': 'DecodingError',
         'EncodingError': 'EncodingError', 'HpmError': 'HpmError', 'NotImplementedError': '(OtherError NotImplementedErr)',
         'RetryError': 'RetryError', 'KeyError': '(OtherError KeyError)', 'IndexError': '(OtherError IndexError)'}
-IDIOMS = [
-    ("'.'.join(map(str, %s))", 'join_dot_str'),
-    ("':'.join([f'{i:02x}' for i in %s])", 'join_colon_hex'),
-]
 # Classes whose behaviour is modelled BY HAND in Model/ApiSem.v (builtins version_field, component_property).
 # Guard: on every run the REAL class of the tree under test is evaluated on a fixed probe set and compared with the
 # Python twin of the builtin below (the twin itself is tied to the Gallina builtin by the C07 correspondence run).
@@ -406,6 +402,7 @@ class Ctx:
         self.tuples = {}       # python name -> list of ast nodes for x = (c1, c2, ...)
         self.ret = None
         self.retinfo = {'msgs': set(), 'other': False}
+        self.aliases = {}      # python name -> (python message variable, field): x = msg.field
         self.fn = None         # the FunctionDef being translated (for "assigned once, never mutated" checks)
 
     def child_copy(self):
@@ -415,6 +412,7 @@ class Ctx:
         c.objcls, c.dicts, c.tuples, c.ret = dict(self.objcls), dict(self.dicts), dict(self.tuples), self.ret
         c.retinfo = self.retinfo
         c.fn = self.fn
+        c.aliases = self.aliases
         return c
 
     def local(self, name):
@@ -513,7 +511,54 @@ class Translator:
             return '(EList [%s])' % '; '.join(self.expr(x, c, pre) for x in e.elts)
         if isinstance(e, ast.Call):
             return self.call(e, c, pre)
+        if isinstance(e, (ast.ListComp, ast.GeneratorExp)) and len(e.generators) == 1 and not e.generators[0].is_async:
+            g = e.generators[0]
+            items = self.static_items(g.iter, c)
+            if items is None:
+                raise Unsupp('comprehension over %s' % ast.unparse(g.iter)[:40])
+            # [elt for target in <static items> if cond]: unrolled list building
+            tmp = self.fresh('comp')
+            pre.append('SLet %s (EList [])' % q(tmp))
+            saved = dict(c.subst)
+            for it in items:
+                c.subst.update(self.destructure(g.target, it))
+                body = []
+                v = self.expr(e.elt, c, body)
+                body.append('SAppend %s %s' % (q(tmp), v))
+                for cond in reversed(g.ifs):
+                    cpre = []
+                    t = self.expr(cond, c, cpre)
+                    if cpre:
+                        raise Unsupp('call inside a comprehension condition')
+                    body = ['SIf %s [%s] []' % (t, '; '.join(body))]
+                pre.extend(body)
+            c.subst = saved
+            return '(EVar %s)' % q(tmp)
         raise Unsupp('expression %s' % type(e).__name__)
+
+    @staticmethod
+    def elementwise(a):
+        """map(f, X) / (f(v) for v in X) / [f(v) for v in X] with f in str, int, two-digit hex -> (kind, X)"""
+        if isinstance(a, ast.Call) and isinstance(a.func, ast.Name) and a.func.id == 'map' and len(a.args) == 2 \
+                and isinstance(a.args[0], ast.Name) and a.args[0].id in ('str', 'int'):
+            return (a.args[0].id, a.args[1])
+        if isinstance(a, (ast.GeneratorExp, ast.ListComp)) and len(a.generators) == 1:
+            g = a.generators[0]
+            if g.ifs or not isinstance(g.target, ast.Name):
+                return None
+            v, elt = g.target.id, a.elt
+            if isinstance(elt, ast.Call) and isinstance(elt.func, ast.Name) and not elt.keywords:
+                if elt.func.id in ('str', 'int') and len(elt.args) == 1 and isinstance(elt.args[0], ast.Name) and elt.args[0].id == v:
+                    return (elt.func.id, g.iter)
+                if elt.func.id == 'format' and len(elt.args) == 2 and isinstance(elt.args[0], ast.Name) and elt.args[0].id == v \
+                        and isinstance(elt.args[1], ast.Constant) and elt.args[1].value == '02x':
+                    return ('hex2', g.iter)
+            if isinstance(elt, ast.JoinedStr) and len(elt.values) == 1 and isinstance(elt.values[0], ast.FormattedValue):
+                fv = elt.values[0]
+                if isinstance(fv.value, ast.Name) and fv.value.id == v and fv.format_spec is not None \
+                        and ast.unparse(fv.format_spec) in ("f'02x'", "'02x'"):
+                    return ('hex2', g.iter)
+        return None
 
 
     def const_expr(self, k):
@@ -539,6 +584,9 @@ class Translator:
             base = n.id
             if base in c.subst and isinstance(c.subst[base], ast.Name):
                 base = c.subst[base].id
+            if base in c.aliases:
+                base, fld = c.aliases[base]
+                chain = [fld] + chain
             if base in c.msgs:
                 if len(chain) > 2:
                     raise Unsupp('message attribute chain %s' % ast.unparse(e))
@@ -604,12 +652,20 @@ class Translator:
     def call(self, e, c, pre):
         f = e.func
         src = ast.unparse(e)
-        # known idioms matched textually
-        for pat, name in IDIOMS:
-            if len(e.args) == 1 or True:
-                for cand in list(c.names) + list(c.subst):
-                    if src == pat % cand:
-                        return '(ECall %s [%s])' % (q(name), self.expr(ast.Name(id=cand, ctx=ast.Load()), c, pre))
+        # '<sep>'.join(<f(v) for v in X>) with f = str / two-digit hex: hand-written builtins
+        if (isinstance(f, ast.Attribute) and f.attr == 'join' and isinstance(f.value, ast.Constant)
+                and len(e.args) == 1 and not e.keywords):
+            ew = self.elementwise(e.args[0])
+            if ew is not None and (f.value.value, ew[0]) in (('.', 'str'), (':', 'hex2')):
+                return '(ECall %s [%s])' % (q('join_dot_str' if ew[0] == 'str' else 'join_colon_hex'),
+                                            self.expr(ew[1], c, pre))
+        if isinstance(f, ast.Name) and f.id == 'create_request_by_name':
+            name = self.const_name(e.args[0], c) if len(e.args) == 1 and not e.keywords else None
+            if not isinstance(name, str):
+                raise Unsupp('create_request_by_name with a non-literal name')
+            mv = self.fresh('req')
+            pre.append('SNewReq %s %s' % (q(mv), q(name)))
+            return ('msg', mv)
         if isinstance(f, ast.Name):
             name = f.id
             if name in ('bool', 'int', 'len', 'list', 'tuple', 'reversed') and len(e.args) == 1 and not e.keywords:
@@ -618,9 +674,10 @@ class Translator:
                 return '(ECall %s [%s])' % (q('isinstance_' + e.args[1].id), self.expr(e.args[0], c, pre))
             if name == 'ByteBuffer' and len(e.args) == 1:
                 a = e.args[0]
-                if ast.unparse(a).startswith('map(int, ') and ast.unparse(a).endswith(".split('.'))"):
-                    inner = a.args[1].func.value
-                    return '(ECall "split_dot_int" [%s])' % self.expr(inner, c, pre)
+                ew = self.elementwise(a)
+                if (ew is not None and ew[0] == 'int' and isinstance(ew[1], ast.Call) and isinstance(ew[1].func, ast.Attribute)
+                        and ew[1].func.attr == 'split' and len(ew[1].args) == 1 and self.const_name(ew[1].args[0], c) == '.'):
+                    return '(ECall "split_dot_int" [%s])' % self.expr(ew[1].func.value, c, pre)
                 return '(ECall "bytebuffer" [%s])' % self.expr(a, c, pre)
             if name == 'VersionField' and len(e.args) == 1 and isinstance(e.args[0], ast.Tuple) and len(e.args[0].elts) == 2:
                 ok, why = behaviour_ok(self.R.repo, 'version_field')
@@ -654,7 +711,14 @@ class Translator:
             # self.method(...)
             if isinstance(f.value, ast.Name) and f.value.id == 'self' and c.selfkind == 'ipmi':
                 if f.attr == 'send_message':
-                    raise Unsupp('send_message used as an expression')
+                    if len(e.args) != 1 or e.keywords:
+                        raise Unsupp('send_message with a retry argument')
+                    r = self.expr_m(e.args[0], c, pre)
+                    if not (isinstance(r, tuple) and r[0] == 'msg'):
+                        raise Unsupp('send_message of an unknown request')
+                    mv = self.fresh('rsp')
+                    pre.append('SSend %s %s false' % (q(mv), q(r[1])))
+                    return ('msg', mv)
                 if f.attr in self.R.methods:
                     clsname, fn, modname, _ = self.R.methods[f.attr]
                     return self.inline_function(Mod.get(self.pkg, modname + '.py'), fn, e, c, pre, selfkind='ipmi')
@@ -1280,15 +1344,6 @@ class Translator:
                 c.names.pop(t.id, None)
                 out.append('SNewReq %s %s' % (q(mv), q(name)))
                 return out
-            if (isinstance(f, ast.Attribute) and isinstance(f.value, ast.Name) and f.value.id == 'self'
-                    and f.attr == 'send_message' and c.selfkind == 'ipmi'):
-                if not (len(value.args) == 1 and isinstance(value.args[0], ast.Name) and value.args[0].id in c.msgs):
-                    raise Unsupp('send_message of an unknown request')
-                mv = self.fresh(t.id)
-                out.append('SSend %s %s false' % (q(mv), q(c.msgs[value.args[0].id])))
-                c.msgs[t.id] = mv
-                c.names.pop(t.id, None)
-                return out
             if isinstance(f, ast.Name) and f.id == 'dict' and not value.args and value.keywords:
                 c.dicts[t.id] = [(kw.arg, kw.value) for kw in value.keywords]
                 return out
@@ -1298,6 +1353,15 @@ class Translator:
         if isinstance(t, ast.Name) and isinstance(value, ast.Dict) and not value.keys:
             lv = c.local(t.id)
             out.append('SNewObj %s "dict" []' % q(lv))
+            return out
+        if (isinstance(t, ast.Name) and isinstance(value, ast.Attribute) and isinstance(value.value, ast.Name)
+                and value.value.id in c.msgs and c.fn is not None
+                and any(isinstance(n, ast.Attribute) and isinstance(n.value, ast.Name) and n.value.id == t.id
+                        for n in ast.walk(c.fn))):
+            # a name for a sub-object (bit-field) of a message: later x.bit means msg.field.bit - it is the same object
+            if not self.assigned_once(c, t.id):
+                raise Unsupp('alias %s of a message field is rebound' % t.id)
+            c.aliases[t.id] = (value.value.id, value.attr)
             return out
         v = self.expr_m(value, c, out)
         if isinstance(t, ast.Name):
@@ -1314,13 +1378,13 @@ class Translator:
             return out
         if isinstance(v, tuple):
             v = '(EMsg %s)' % q(v[1])
-        if isinstance(t, ast.Tuple):
-            if not all(isinstance(x, ast.Name) for x in t.elts):
-                raise Unsupp('tuple target')
-            tmp = self.fresh('tup')
+        if isinstance(t, (ast.Tuple, ast.List)):
+            tmp_py = self.fresh('tup').replace('$', '_')
+            tmp = c.local(tmp_py)
             out.append('SLet %s %s' % (q(tmp), v))
             for i, x in enumerate(t.elts):
-                out.append('SLet %s (EIndex (EVar %s) (EConst (PInt %d)))' % (q(c.local(x.id)), q(tmp), i))
+                out.extend(self.assign(x, ast.Subscript(value=ast.Name(id=tmp_py, ctx=ast.Load()),
+                                                        slice=ast.Constant(value=i), ctx=ast.Load()), c))
             return out
         if isinstance(t, ast.Attribute):
             chain = []
@@ -1331,6 +1395,9 @@ class Translator:
             chain.reverse()
             if isinstance(n, ast.Name):
                 base = n.id
+                if base in c.aliases:
+                    base, fld = c.aliases[base]
+                    chain = [fld] + chain
                 if base in c.msgs:
                     if len(chain) > 2:
                         raise Unsupp('assignment to %s' % ast.unparse(t))
